@@ -354,3 +354,11 @@ type TNullNest struct {
 	N TNull  `plenc:"1"`
 	P *TNull `plenc:"2"`
 }
+
+// TJsonTag: descriptor names come from json tags.
+type TJsonTag struct {
+	A int    `plenc:"1" json:"alpha"`
+	B string `plenc:"2" json:",omitempty"`
+	C bool   `plenc:"3" json:"-"`
+	D uint8  `plenc:"4" json:"delta,omitempty"`
+}
